@@ -223,21 +223,25 @@ def interp (xs ys : List Rat) (x : Fl) (single : Bool := false) : Fl :=
 
 def finVals (col : List Fl) : List Rat := col.filterMap fun | Fl.fin a => some a | _ => none
 
+/-- numpy indexing of a sorted column, including the wrap-around of the index `-1` (empty column) -/
+def atIdx (arr : List Rat) (i : Int) : Rat :=
+  if i < 0 then arr.getD (arr.length - (-i).toNat) 0 else arr.getD i.toNat 0
+
+/-- "Linear interpolation - take the fractional part of desired position":
+    `floor_val` if floor = ceil, else `arr[floor]·(ceil − pos) + arr[ceil]·(pos − floor)` -/
+def lerpAt (A : Int → Rat) (pos : Rat) : Rat :=
+  if pos.floor = pos.ceil then A pos.floor
+  else A pos.floor * ((pos.ceil : Rat) - pos) + A pos.ceil * (pos - (pos.floor : Rat))
+
+/-- the column with NaNs replaced by the global maximum `m` -/
+def fillCol (m : Rat) (col : List Fl) : List Rat := col.map fun | Fl.fin a => a | _ => m
+
 /-- one column of `_nanquantile`: NaNs are replaced by the global maximum `mx` (if the matrix is not all-NaN),
-    the column is sorted, and the order statistic at `(valid-1)*quant` is linearly interpolated; numpy's
-    negative index `-1` (empty column) wraps to the last row -/
+    the column is sorted, and the order statistic at `(valid-1)*quant` is linearly interpolated -/
 def nanquantileCol (mx : Option Rat) (col : List Fl) (quant : Rat) : Fl :=
   match mx with
   | none => Fl.nan
-  | some m =>
-    let valid := (finVals col).length
-    let arr := sortAsc (col.map fun | Fl.fin a => a | _ => m)
-    let pos : Rat := ((valid : Int) - 1 : Int) * quant
-    let fl := pos.floor
-    let ce := pos.ceil
-    let at' (i : Int) : Rat := if i < 0 then arr.getD (arr.length - (-i).toNat) 0 else arr.getD i.toNat 0
-    if fl = ce then Fl.fin (at' fl)
-    else Fl.fin (at' fl * ((ce : Rat) - pos) + at' ce * (pos - (fl : Rat)))
+  | some m => Fl.fin (lerpAt (atIdx (sortAsc (fillCol m col))) ((((finVals col).length : Int) - 1 : Int) * quant))
 
 def transpose (rows : List (List Fl)) (ncol : Nat) : List (List Fl) :=
   (List.range ncol).map fun j => rows.map fun r => r.getD j Fl.nan
